@@ -257,6 +257,14 @@ func (g *ilvGen) mutate() *Node {
 				Call("string:join", Call("map", QS("list"), A("to-string"), v), Str("-")),
 				Call("base64:encode", Call("to-bytes", Str("abc"))))), A(name))
 		}
+		if g.r.Chance(1, 4) {
+			// a value made by a library ends up inside a macro expansion (the
+			// expansion is stamped with the call site by the runtime expanding it)
+			g.keepN++
+			obj := PickStr(g.r, []string{"(s:positive)", "(s:gt 3)", "s:int", "(list 'quote (s:in \"a\"))", "(list 'list (s:len 2) s:string)",
+				"(list 'quote (list (s:negative) s:any))", "(s:not (s:lt 1))", "(list 'quote (time:parse-duration \"1s\"))"})
+			return A(fmt.Sprintf("(progn (defmacro mlib%d () %s) (mlib%d) (type (mlib%d)))", g.keepN, obj, g.keepN, g.keepN))
+		}
 		if g.r.Chance(1, 3) {
 			// refusals raised by the libraries themselves (the error value
 			// is stamped with position and stack by the runtime that raises it)
@@ -554,49 +562,15 @@ func (ilvEngine) Run(ci any, st *Stats) *Violation {
 		return Violf("harness", "%v", err)
 	}
 
-	// concurrent GenSym / GenEnvID callers on one runtime: the only operations
-	// documented as safe for concurrent use
-	if c.GenSyms > 0 {
-		w, err := NewWorld(Knobs{})
-		if err != nil {
-			return Violf("harness", "%v", err)
-		}
-		var wg sync.WaitGroup
-		outs := make([][]string, c.GenSyms)
-		for gi := 0; gi < c.GenSyms; gi++ {
-			wg.Add(1)
-			go func(gi int) {
-				defer wg.Done()
-				for j := 0; j < 200; j++ {
-					outs[gi] = append(outs[gi], w.RT.GenSym(), fmt.Sprint("e", w.RT.GenEnvID()))
-				}
-			}(gi)
-		}
-		wg.Wait()
-		seen := map[string]bool{}
-		for _, o := range outs {
-			for _, s := range o {
-				if seen[s] {
-					return Violf("gensym-duplicate", "concurrent GenSym/GenEnvID callers on one runtime obtained %q twice", s)
-				}
-				seen[s] = true
-			}
-		}
-		st.Inc("reach_concurrent_gensym_storm")
-	}
 
 	// the interleaved run
 	worlds := make([]*World, n)
 	results := make([][]ilvLoadResult, n)
 	rd := &sharedReader{src: src, exprs: exprs, inner: parser.NewReader()}
-	for i := 0; i < n; i++ {
-		w, err := NewWorld(c.Knobs[i])
-		if err != nil {
-			return Violf("harness", "%v", err)
-		}
-		w.RT.Reader = rd
-		worlds[i] = w
-	}
+	// Each runtime is CONSTRUCTED by its own goroutine (under the baton, like
+	// everything else it does): construction reads and fills process-wide
+	// tables too, and the first construction in a process is the interesting one.
+	buildErrs := make([]error, n)
 	b := &baton{}
 	burst := c.Burst
 	if burst < 1 {
@@ -608,7 +582,17 @@ func (ilvEngine) Run(ci any, st *Stats) *Violation {
 		go func(i int) {
 			defer wg.Done()
 			me := int32(i + 1)
-			w := worlds[i]
+			b.wait(me)
+			w, err := NewWorld(c.Knobs[i])
+			if err != nil {
+				buildErrs[i] = err
+				b.finish(i)
+				b.give(0)
+				return
+			}
+			w.RT.Reader = rd
+			worlds[i] = w
+			b.give(0) // construction is one scheduling event
 			b.wait(me)
 			for l := 0; l < c.Loads[i]; l++ {
 				from := len(w.Events)
@@ -685,6 +669,41 @@ func (ilvEngine) Run(ci any, st *Stats) *Violation {
 		}
 	}
 	wg.Wait()
+	for _, err := range buildErrs {
+		if err != nil {
+			return Violf("harness", "%v", err)
+		}
+	}
+	// concurrent GenSym / GenEnvID callers on one runtime: the only operations
+	// documented as safe for concurrent use
+	if c.GenSyms > 0 {
+		w, err := NewWorld(Knobs{})
+		if err != nil {
+			return Violf("harness", "%v", err)
+		}
+		var wg2 sync.WaitGroup
+		outs := make([][]string, c.GenSyms)
+		for gi := 0; gi < c.GenSyms; gi++ {
+			wg2.Add(1)
+			go func(gi int) {
+				defer wg2.Done()
+				for j := 0; j < 200; j++ {
+					outs[gi] = append(outs[gi], w.RT.GenSym(), fmt.Sprint("e", w.RT.GenEnvID()))
+				}
+			}(gi)
+		}
+		wg2.Wait()
+		seen := map[string]bool{}
+		for _, o := range outs {
+			for _, s := range o {
+				if seen[s] {
+					return Violf("gensym-duplicate", "concurrent GenSym/GenEnvID callers on one runtime obtained %q twice", s)
+				}
+				seen[s] = true
+			}
+		}
+		st.Inc("reach_concurrent_gensym_storm")
+	}
 	// solo twins: fresh parse per load, running alone.  They run AFTER the
 	// interleaved run so that lazily filled process-wide tables are first
 	// touched from inside the concurrent goroutines, not pre-warmed here.
